@@ -68,7 +68,19 @@ func rootTerm(a string) string {
 	}
 }
 
-func (e *Enc) isFreshAddr(a string) bool { return e.freshAddrs[rootTerm(a)] }
+func (e *Enc) isFreshAddr(a string) bool {
+	if strings.HasPrefix(a, "(sl_base ") {
+		inner := firstSexpr(a[9:])
+		if e.freshAddrs[inner] {
+			return true
+		}
+		if strings.HasPrefix(inner, "(mk_slice ") {
+			return e.isFreshAddr(firstSexpr(inner[10:]))
+		}
+		return false
+	}
+	return e.freshAddrs[rootTerm(a)]
+}
 
 func (e *Enc) tinvCtx(st *State, guard string) *specCtx {
 	return &specCtx{e: e, st: st, old: st, guard: guard, vars: map[string]SV{}, oldVars: map[string]SV{}, pkg: e.m.lang.Pkg}
@@ -161,4 +173,41 @@ func (e *Enc) tinvObligeStore(cur *cursor, addr string, t types.Type, pos token.
 		tag := cur.fc.tag
 		e.oblige(cur.guard, "tinv", fmt.Sprintf("%sstore#%d", tag, e.ordinal(tag+"tinv")), goal, []string{"C01"}, pos, "type invariant "+e.tinvName(pt)+" must hold after the store to "+what)
 	}
+}
+
+// ---------------------------------------------------------------- element invariants
+//
+// `//@ eleminv nonnil *Cell Expr ...`: a pointer/interface of one of these types stored inside a
+// slice or a map is never nil.  Assumed when an element is read from a container the function did
+// not allocate itself, proved when an element is written (indexed store, append, map update).
+
+func (e *Enc) elemNonNil(t types.Type) bool {
+	if len(e.m.spec.NonNilElems) == 0 {
+		return false
+	}
+	name := types.TypeString(t, func(p *types.Package) string {
+		if e.m.isLocalPkg(p) {
+			return ""
+		}
+		return p.Name()
+	})
+	return e.m.spec.NonNilElems[name]
+}
+
+func (e *Enc) nilOfType(t types.Type) string { return e.m.zero(t) }
+
+// elemLoadAssume: value v of type t was read from container element at address/slice base `root`.
+func (e *Enc) elemLoadAssume(cur *cursor, v string, t types.Type, root string) {
+	if !e.elemNonNil(t) || e.isFreshAddr(root) {
+		return
+	}
+	e.assume(cur.guard, fmt.Sprintf("(not (= %s %s))", v, e.nilOfType(t)))
+}
+
+func (e *Enc) elemStoreOblige(cur *cursor, v string, t types.Type, pos token.Pos, what string) {
+	if !e.elemNonNil(t) {
+		return
+	}
+	tag := cur.fc.tag
+	e.oblige(cur.guard, "elem", fmt.Sprintf("%snonnil#%d", tag, e.ordinal(tag+"elem")), fmt.Sprintf("(not (= %s %s))", v, e.nilOfType(t)), []string{"C01"}, pos, "element invariant: "+what+" must not be nil")
 }
